@@ -29,6 +29,11 @@ CLAIMED = {
    note="Trusted: Coq kernel, translator (PROTOCOL_RE AST, pinned structurally), extraction, driver, harness. urllib.quote / unquote models tied by leaf correspondence. Argument values enter the model through their str() rendering computed by CPython (ints, floats).",
    technique="Coq proofs over the generated regex AST via a verified regex metatheory + differential correspondence + parse-back deciders",
    ref="6 C20"),
+ "C15": dict(
+   text="Proved in Coq for every string (closed under the global context) on the model of the loop: each inferred target is strictly shorter than the url (termination measure), so length(url)+1 passes always suffice — the explicit fuel is never exhausted and no exception other than an oracle-table miss can arise; the recursive result is a fixed point of both the recursive and the non-recursive form; the recursive form is exactly the iteration of the non-recursive one; every target is built from text literally present in the url ('https://' + suffix, or the percent-decoded value of a slice, possibly urljoin-ed or 'https://'-prefixed). PARTIAL on the runtime side: CPython's stack limit and wall-clock are not expressible in the model; the harness runs every call under a 2 s alarm and a recursion limit of 400, including a 1,200-level unencoded chain. Tie: model vs implementation on a redirect grammar (keys and look-alikes in query / path / fragment / userinfo / host position, nested and percent-encoded targets, AMP / Marfeel hosts), with fixed-point, iteration-agreement and embedded-target deciders on the implementation's outputs.",
+   note="Trusted: Coq kernel, translator (OBVIOUS_REDIRECTS_RE, REDIRECTION_DOMAINS_RE ASTs), extraction, driver, harness; urllib urljoin / unquote models (leaf correspondence); ipaddress oracle for bracketed hosts.",
+   technique="Coq termination / fixed-point proof on a fuelled loop model + differential correspondence under alarms",
+   ref="6 C15"),
 }
 
 NOT_YET = {}
